@@ -1,9 +1,1064 @@
-//! C08 — (stub; not built yet)
+//! C08 — the Hilbert index is a bijective, continuous curve at every accepted order;
+//! the quantisation of coordinates to cells is monotone and stays in range.
+//!
+//! ops (integers decimal unless stated; floats as IEEE-754 binary64 bit patterns in hex):
+//!   `grid2 <order>`                          all cells, x outer / y inner      -> indices
+//!   `grid3 <order>`                          all cells, x outer / y / z inner  -> indices
+//!   `e2 <order> <n> x1 y1 … xn yn`           -> n indices | `panic …`
+//!   `e3 <order> <n> x1 y1 z1 … xn yn zn`     -> n indices | `panic …`
+//!   `slow2 <order> <config> <n> z1 … zn`     -> `h1 c1 … hn cn` = encode_2d_slow(z_i, order, config) | `panic …`
+//!   `pdep <n> src1 mask1 … srcn maskn` (hex) -> `a1 b1 … an bn` (hex), a = pdep_u64, b = pdep_u64_fallback
+//!   `seg <order> <min> <max> <n> v1 … vn`    -> n cell numbers = segment_to_segment(min,max,order)(v_i)
+//!                                               | `panic …` | `hang`
+//!
+//! Oracle (on the implementation's output only): bijectivity, unit steps and the
+//! parent law on the exhaustive grids; index range, parent law (fresh call one
+//! order lower) and injectivity on the sampled cells; table-driven = slow encoder;
+//! hardware pdep = fallback = naive pdep; quantisation without panic/hang on valid
+//! finite input, within `0..=2^order-1`, monotone, `min -> 0`.
 
 use crate::common::*;
+use coupe::verif::hilbert as hk;
 
-pub fn generate(_ctx: &mut Ctx) {}
+/// orders `HilbertCurve` accepts
+const MAX2: usize = 32;
+const MAX3: usize = 21;
+/// largest exhaustive grids a `grid2`/`grid3` op may ask for (same limits in the driver)
+const GRID2_MAX: usize = 11;
+const GRID3_MAX: usize = 7;
+
+// ------------------------------------------------------------------ helpers
+
+fn low_mask(o: usize) -> u64 {
+    if o >= 64 {
+        u64::MAX
+    } else {
+        (1u64 << o) - 1
+    }
+}
+
+fn count_n(ctx: &mut Ctx, key: &str, n: u64) {
+    *ctx.hist.entry(key.to_string()).or_insert(0) += n;
+}
+
+/// naive pdep: deposit the low bits of `src` at the set bits of `mask`, low to high
+fn pdep_naive(src: u64, mask: u64) -> u64 {
+    let mut out = 0u64;
+    let mut k = 0;
+    for bit in 0..64 {
+        if mask >> bit & 1 == 1 {
+            if src >> k & 1 == 1 {
+                out |= 1u64 << bit;
+            }
+            k += 1;
+        }
+    }
+    out
+}
+
+/// z-order value -> (x, y): x = odd bits, y = even bits
+fn deinterleave2(z: u64) -> (u64, u64) {
+    let (mut x, mut y) = (0u64, 0u64);
+    for i in 0..32 {
+        y |= (z >> (2 * i) & 1) << i;
+        x |= (z >> (2 * i + 1) & 1) << i;
+    }
+    (x, y)
+}
+
+/// neighbouring representable number (towards +inf if `up`)
+fn ulp_step(v: f64, up: bool) -> f64 {
+    if v.is_nan() || v.is_infinite() {
+        return v;
+    }
+    if v == 0.0 {
+        let tiny = f64::from_bits(1);
+        return if up { tiny } else { -tiny };
+    }
+    let b = v.to_bits();
+    if (v > 0.0) == up {
+        f64::from_bits(b + 1)
+    } else {
+        f64::from_bits(b - 1)
+    }
+}
+
+/// `±(1 + frac) * 2^e`, `e` uniform in `emin..=emax` (normal range)
+fn rand_f(rng: &mut Rng, emin: i64, emax: i64, negative: bool) -> f64 {
+    let e = rng.range(emin, emax);
+    let bits = (((e + 1023) as u64) << 52) | (rng.next() & ((1u64 << 52) - 1));
+    let v = f64::from_bits(bits);
+    if negative {
+        -v
+    } else {
+        v
+    }
+}
+
+fn rand01(rng: &mut Rng) -> f64 {
+    (rng.next() >> 11) as f64 / (1u64 << 53) as f64
+}
+
+fn pow2(order: usize) -> f64 {
+    (1u64 << order) as f64
+}
+
+/// does `n / width` overflow to +inf (the shape on which the `nextafter` loop cannot make progress)?
+fn factor_overflows(min: f64, max: f64, order: usize) -> bool {
+    let width = max - min;
+    width > 0.0 && (pow2(order) / width).is_infinite()
+}
+
+// ------------------------------------------------------------------ generator
+
+pub fn generate(ctx: &mut Ctx) {
+    // ---- exhaustive grids
+    let (g2, g3) = if ctx.quick() { (6usize, 4usize) } else { (9, 5) };
+    for o in 1..=g2 {
+        run_op(ctx, &format!("grid2 {}", o));
+    }
+    for o in 1..=g3 {
+        run_op(ctx, &format!("grid3 {}", o));
+    }
+    ctx.notes.push(format!(
+        "exhaustive sub-space: every cell of the 2-D grid at orders 1..={} and of the 3-D grid at orders 1..={} \
+         (model = implementation on every cell; bijectivity, unit steps and parent law on the implementation's output)",
+        g2, g3
+    ));
+
+    // ---- sampled cells at every accepted order
+    let batches = ctx.budget(2, 192);
+    for o in 1..=MAX2 {
+        for _ in 0..batches {
+            let cells = gen_cells2(ctx, o);
+            let flat: Vec<u64> = cells.iter().flat_map(|c| [c.0, c.1]).collect();
+            run_op(ctx, &format!("e2 {} {} {}", o, cells.len(), join(&flat)));
+        }
+    }
+    let batches = ctx.budget(2, 200);
+    for o in 1..=MAX3 {
+        for _ in 0..batches {
+            let cells = gen_cells3(ctx, o);
+            let flat: Vec<u64> = cells.iter().flat_map(|c| [c.0, c.1, c.2]).collect();
+            run_op(ctx, &format!("e3 {} {} {}", o, cells.len(), join(&flat)));
+        }
+    }
+
+    // ---- malformed cells (one bad coordinate per op: the whole op panics)
+    for i in 0..ctx.budget(8, 40) {
+        let o = 1 + ctx.rng.usize(MAX2);
+        let bad = match ctx.rng.usize(3) {
+            0 => 1u64 << o,
+            1 => (1u64 << o) + ctx.rng.below(1u64 << o),
+            _ => u64::MAX,
+        };
+        let good = ctx.rng.next() & low_mask(o);
+        let (x, y) = if i % 2 == 0 { (bad, good) } else { (good, bad) };
+        ctx.count("malformed_e2");
+        run_op(ctx, &format!("e2 {} 1 {} {}", o, x, y));
+    }
+    for i in 0..ctx.budget(9, 45) {
+        let o = 1 + ctx.rng.usize(MAX3);
+        let bad = match ctx.rng.usize(3) {
+            0 => 1u64 << o,
+            1 => (1u64 << o) + ctx.rng.below(1u64 << o),
+            _ => u64::MAX,
+        };
+        let mut c = [ctx.rng.next() & low_mask(o), ctx.rng.next() & low_mask(o), ctx.rng.next() & low_mask(o)];
+        c[i % 3] = bad;
+        ctx.count("malformed_e3");
+        run_op(ctx, &format!("e3 {} 1 {} {} {}", o, c[0], c[1], c[2]));
+    }
+    for _ in 0..2 {
+        let o = 1 + ctx.rng.usize(MAX2);
+        let cfg = 4 + ctx.rng.usize(4);
+        let z = ctx.rng.next() & low_mask(2 * o);
+        ctx.count("malformed_slow2");
+        run_op(ctx, &format!("slow2 {} {} 1 {}", o, cfg, z));
+    }
+
+    // ---- slow encoder from every start configuration
+    let (lines, per_line) = if ctx.quick() { (1, 64) } else { (20, 100) };
+    for o in 1..=MAX2 {
+        for cfg in 0..4 {
+            for _ in 0..lines {
+                let m = low_mask(2 * o);
+                let zs: Vec<u64> = (0..per_line)
+                    .map(|i| match i {
+                        0 => 0,
+                        1 => m,
+                        2 => 0x5555_5555_5555_5555 & m,
+                        3 => 0xAAAA_AAAA_AAAA_AAAA & m,
+                        _ => ctx.rng.next() & m,
+                    })
+                    .collect();
+                run_op(ctx, &format!("slow2 {} {} {} {}", o, cfg, zs.len(), join(&zs)));
+            }
+        }
+    }
+
+    // ---- pdep
+    const M2: u64 = 0x5555_5555_5555_5555;
+    const M3: u64 = 0x9249_2492_4924_9249;
+    for _ in 0..ctx.budget(40, 2000) {
+        let mut pairs = Vec::with_capacity(100);
+        for _ in 0..50 {
+            let (mask, mshape) = match ctx.rng.usize(12) {
+                0 => (M2, "pdep_mask_2d_y"),
+                1 => (M2 << 1, "pdep_mask_2d_x"),
+                2 => (M3, "pdep_mask_3d_z"),
+                3 => (M3 << 1, "pdep_mask_3d_y"),
+                4 => (M3 << 2, "pdep_mask_3d_x"),
+                5 => (ctx.rng.next(), "pdep_mask_random"),
+                6 => (ctx.rng.next() | ctx.rng.next() | ctx.rng.next(), "pdep_mask_dense"),
+                7 => (ctx.rng.next() & ctx.rng.next() & ctx.rng.next(), "pdep_mask_sparse"),
+                8 => (0, "pdep_mask_zero"),
+                9 => (u64::MAX, "pdep_mask_ones"),
+                10 => (1u64 << ctx.rng.usize(64), "pdep_mask_single_bit"),
+                _ => (low_mask(1 + ctx.rng.usize(63)) << ctx.rng.usize(8), "pdep_mask_run"),
+            };
+            let src = match ctx.rng.usize(5) {
+                0 => ctx.rng.below(256),
+                1 => u64::MAX,
+                2 => ctx.rng.next() & low_mask(1 + ctx.rng.usize(32)),
+                _ => ctx.rng.next(),
+            };
+            ctx.count(mshape);
+            pairs.push(format!("{:x}", src));
+            pairs.push(format!("{:x}", mask));
+        }
+        run_op(ctx, &format!("pdep 50 {}", pairs.join(" ")));
+    }
+
+    // ---- quantisation of coordinates
+    for _ in 0..ctx.budget(400, 20000) {
+        let (min, max, order, shape) = gen_interval(ctx);
+        ctx.count(shape);
+        let vs = gen_values(ctx, min, max, order);
+        run_op(ctx, &format_seg(order, min, max, &vs));
+    }
+    // malformed: reversed or NaN bounds, values outside
+    for i in 0..ctx.budget(12, 60) {
+        let order = 1 + ctx.rng.usize(MAX2);
+        let a = rand_f(&mut ctx.rng, -4, 4, false);
+        let b = a + rand_f(&mut ctx.rng, -4, 4, false);
+        let op = match i % 6 {
+            0 => format_seg(order, b, a, &[a]),
+            1 => format_seg(order, f64::NAN, b, &[a]),
+            2 => format_seg(order, a, f64::NAN, &[a]),
+            3 => format_seg(order, a, b, &[a, ulp_step(b, true)]),
+            4 => format_seg(order, a, b, &[ulp_step(a, false), b]),
+            _ => format_seg(order, a, b, &[a, f64::NAN]),
+        };
+        ctx.count("seg_malformed");
+        run_op(ctx, &op);
+    }
+    // LAST: widths so small that 2^order / width overflows. On these the `nextafter`
+    // loop of `segment_to_segment` cannot make progress; a helper thread that hangs
+    // keeps spinning until the process exits, hence only a handful of them.
+    for i in 0..ctx.budget(3, 6) {
+        let (min, max, order) = gen_overflowing(ctx, i);
+        ctx.count("seg_shape_overflowing_factor");
+        let vs = vec![min, max];
+        run_op(ctx, &format_seg(order, min, max, &vs));
+    }
+}
+
+fn special_coord(rng: &mut Rng, o: usize) -> u64 {
+    let m = low_mask(o);
+    match rng.usize(6) {
+        0 => 0,
+        1 => m,
+        2 => 1u64 << rng.usize(o),
+        3 => m ^ (1u64 << rng.usize(o)),
+        4 => 0x5555_5555_5555_5555 & m,
+        _ => 0xAAAA_AAAA_AAAA_AAAA & m,
+    }
+}
+
+/// one of the top three bits of an `o`-bit coordinate
+fn high_bit(rng: &mut Rng, o: usize) -> u64 {
+    1u64 << (o - 1 - rng.usize(o.min(3)))
+}
+
+fn neighbour(rng: &mut Rng, c: u64, o: usize) -> u64 {
+    let m = low_mask(o);
+    if c == 0 {
+        1
+    } else if c == m {
+        m - 1
+    } else if rng.chance(1, 2) {
+        c + 1
+    } else {
+        c - 1
+    }
+}
+
+/// ≈ 100 cells of the 2-D grid at order `o`, every shape in every batch
+fn gen_cells2(ctx: &mut Ctx, o: usize) -> Vec<(u64, u64)> {
+    let m = low_mask(o);
+    let rng = &mut ctx.rng;
+    let mut cells = Vec::with_capacity(104);
+    for _ in 0..40 {
+        cells.push((rng.next() & m, rng.next() & m));
+    }
+    for _ in 0..12 {
+        cells.push((special_coord(rng, o), special_coord(rng, o)));
+    }
+    cells.extend([(0, 0), (0, m), (m, 0), (m, m)]);
+    for _ in 0..8 {
+        // two cells that differ in one high bit only
+        let c = (rng.next() & m, rng.next() & m);
+        let b = high_bit(rng, o);
+        cells.push(c);
+        cells.push(if rng.chance(1, 2) { (c.0 ^ b, c.1) } else { (c.0, c.1 ^ b) });
+    }
+    for _ in 0..8 {
+        let c = (rng.next() & m, rng.next() & m);
+        cells.push(c);
+        cells.push(if rng.chance(1, 2) { (neighbour(rng, c.0, o), c.1) } else { (c.0, neighbour(rng, c.1, o)) });
+    }
+    for _ in 0..4 {
+        // the four children of one parent cell
+        let p = (rng.next() & (m >> 1), rng.next() & (m >> 1));
+        for k in 0..4u64 {
+            cells.push((2 * p.0 + (k >> 1), 2 * p.1 + (k & 1)));
+        }
+    }
+    count_n(ctx, "cells2_uniform", 40);
+    count_n(ctx, "cells2_special_bits", 12);
+    count_n(ctx, "cells2_corner", 4);
+    count_n(ctx, "cells2_high_bit_pair", 16);
+    count_n(ctx, "cells2_neighbour_pair", 16);
+    count_n(ctx, "cells2_sibling_family", 16);
+    cells
+}
+
+fn gen_cells3(ctx: &mut Ctx, o: usize) -> Vec<(u64, u64, u64)> {
+    let m = low_mask(o);
+    let rng = &mut ctx.rng;
+    let mut cells = Vec::with_capacity(100);
+    for _ in 0..40 {
+        cells.push((rng.next() & m, rng.next() & m, rng.next() & m));
+    }
+    for _ in 0..12 {
+        cells.push((special_coord(rng, o), special_coord(rng, o), special_coord(rng, o)));
+    }
+    for k in 0..8u64 {
+        cells.push(((k >> 2 & 1) * m, (k >> 1 & 1) * m, (k & 1) * m));
+    }
+    for _ in 0..6 {
+        let c = (rng.next() & m, rng.next() & m, rng.next() & m);
+        let b = high_bit(rng, o);
+        cells.push(c);
+        cells.push(match rng.usize(3) {
+            0 => (c.0 ^ b, c.1, c.2),
+            1 => (c.0, c.1 ^ b, c.2),
+            _ => (c.0, c.1, c.2 ^ b),
+        });
+    }
+    for _ in 0..6 {
+        let c = (rng.next() & m, rng.next() & m, rng.next() & m);
+        cells.push(c);
+        cells.push(match rng.usize(3) {
+            0 => (neighbour(rng, c.0, o), c.1, c.2),
+            1 => (c.0, neighbour(rng, c.1, o), c.2),
+            _ => (c.0, c.1, neighbour(rng, c.2, o)),
+        });
+    }
+    for _ in 0..2 {
+        let p = (rng.next() & (m >> 1), rng.next() & (m >> 1), rng.next() & (m >> 1));
+        for k in 0..8u64 {
+            cells.push((2 * p.0 + (k >> 2 & 1), 2 * p.1 + (k >> 1 & 1), 2 * p.2 + (k & 1)));
+        }
+    }
+    count_n(ctx, "cells3_uniform", 40);
+    count_n(ctx, "cells3_special_bits", 12);
+    count_n(ctx, "cells3_corner", 8);
+    count_n(ctx, "cells3_high_bit_pair", 12);
+    count_n(ctx, "cells3_neighbour_pair", 12);
+    count_n(ctx, "cells3_sibling_family", 16);
+    cells
+}
+
+fn format_seg(order: usize, min: f64, max: f64, vs: &[f64]) -> String {
+    let mut s = format!("seg {} {:x} {:x} {}", order, min.to_bits(), max.to_bits(), vs.len());
+    for v in vs {
+        s.push_str(&format!(" {:x}", v.to_bits()));
+    }
+    s
+}
+
+/// A valid finite interval (min <= max), an order at which `2^order / width` stays
+/// finite, and the name of the shape.
+fn gen_interval(ctx: &mut Ctx) -> (f64, f64, usize, &'static str) {
+    for _ in 0..200 {
+        let rng = &mut ctx.rng;
+        let mut order = 1 + rng.usize(MAX2);
+        let (a, b, shape): (f64, f64, &'static str) = match rng.usize(20) {
+            0..=3 => {
+                let a = (rand01(rng) - 0.5) * 20.0;
+                (a, a + rand01(rng) * 20.0, "seg_shape_unit")
+            }
+            4 | 5 => {
+                let (sa, sb) = (rng.chance(1, 2), rng.chance(1, 2));
+                let a = rand_f(rng, 990, 1022, sa);
+                let b = rand_f(rng, 990, 1022, sb);
+                (a, b, "seg_shape_huge")
+            }
+            6 | 7 => {
+                // a few ulps wide
+                let a = rand_f(rng, -300, 300, false);
+                let b = f64::from_bits(a.to_bits() + 1 + rng.below(4096));
+                if rng.chance(1, 2) {
+                    (a, b, "seg_shape_tiny_width")
+                } else {
+                    (-b, -a, "seg_shape_tiny_width")
+                }
+            }
+            8 | 9 => {
+                let a = rand_f(rng, -10, 10, true);
+                let b = rand_f(rng, -10, 10, true);
+                (a, b, "seg_shape_negative")
+            }
+            10 | 11 => {
+                let v = match rng.usize(8) {
+                    0 => 0.0,
+                    1 => -0.0,
+                    2 => 1.0,
+                    3 => -3.5,
+                    4 => f64::MAX,
+                    5 => f64::from_bits(1),
+                    6 => {
+                        let neg = rng.chance(1, 2);
+                        rand_f(rng, -1022, 1023, neg)
+                    }
+                    _ => (rng.range(-1000, 1000)) as f64,
+                };
+                if v == 0.0 && rng.chance(1, 2) {
+                    (-0.0, 0.0, "seg_shape_zero_width")
+                } else {
+                    (v, v, "seg_shape_zero_width")
+                }
+            }
+            12 | 13 => {
+                // subnormal bound(s); the order is lowered below until the factor is finite
+                let sub = |rng: &mut Rng| f64::from_bits(rng.next() & ((1u64 << 52) - 1));
+                match rng.usize(4) {
+                    0 => (sub(rng), rand_f(rng, -1000, 0, false), "seg_shape_subnormal_bounds"),
+                    1 => (-sub(rng), rand_f(rng, -1000, 0, false), "seg_shape_subnormal_bounds"),
+                    2 => (rand_f(rng, -1000, 0, true), sub(rng), "seg_shape_subnormal_bounds"),
+                    _ => (-sub(rng), sub(rng), "seg_shape_subnormal_bounds"),
+                }
+            }
+            14 | 15 => {
+                let a = rng.range(-1000, 1000) as f64;
+                let w = (1 + rng.below(1 << 20)) as f64;
+                (a, a + w, "seg_shape_integer")
+            }
+            16 => {
+                let a = rand_f(rng, -1022, 1023, true);
+                let b = rand_f(rng, -1022, 1023, false);
+                (a, b, "seg_shape_mixed_exponents")
+            }
+            17 => {
+                // max - min overflows to +inf
+                let a = rand_f(rng, 1023, 1023, true);
+                let b = rand_f(rng, 1023, 1023, false);
+                (a, b, "seg_shape_infinite_width")
+            }
+            _ => {
+                // width a few ulps above the overflow threshold 2^(order-1024): factor close to f64::MAX
+                let e = order as i64 - 1024;
+                let bits = if e >= -1022 { ((e + 1023) as u64) << 52 } else { 1u64 << (52 - (-1022 - e)) };
+                let w = f64::from_bits(bits + 1 + rng.below(4));
+                if rng.chance(1, 2) {
+                    (0.0, w, "seg_shape_near_overflow")
+                } else {
+                    (-w, 0.0, "seg_shape_near_overflow")
+                }
+            }
+        };
+        let (min, max) = if a <= b { (a, b) } else { (b, a) };
+        if !(min.is_finite() && max.is_finite()) {
+            continue;
+        }
+        while order > 1 && factor_overflows(min, max, order) {
+            order -= 1;
+        }
+        if factor_overflows(min, max, order) {
+            continue;
+        }
+        return (min, max, order, shape);
+    }
+    (0.0, 1.0, 3, "seg_shape_unit")
+}
+
+/// min, max, midpoint, neighbours of the bounds, cell boundaries ± 1 ulp and
+/// random interior points, sorted ascending
+fn gen_values(ctx: &mut Ctx, min: f64, max: f64, order: usize) -> Vec<f64> {
+    let rng = &mut ctx.rng;
+    let clamp = |v: f64| {
+        if v.is_nan() || v < min {
+            min
+        } else if v > max {
+            max
+        } else {
+            v
+        }
+    };
+    let lerp = |u: f64| clamp(min * (1.0 - u) + max * u);
+    let cell = (max - min) / pow2(order);
+    let mut vs = vec![min, max, lerp(0.5), clamp(ulp_step(min, true)), clamp(ulp_step(max, false))];
+    for _ in 0..5 {
+        let k = match rng.usize(4) {
+            0 => 1,
+            1 => (1u64 << order) - 1,
+            2 => 1u64 << (order - 1),
+            _ => rng.below((1u64 << order) + 1),
+        };
+        let g = clamp(min + k as f64 * cell);
+        vs.push(g);
+        vs.push(clamp(ulp_step(g, true)));
+        vs.push(clamp(ulp_step(g, false)));
+    }
+    for _ in 0..4 {
+        vs.push(lerp(rand01(rng)));
+    }
+    vs.sort_by(|a, b| a.total_cmp(b));
+    vs
+}
+
+/// intervals on which `2^order / width` is +inf (0 < width)
+fn gen_overflowing(ctx: &mut Ctx, i: usize) -> (f64, f64, usize) {
+    let rng = &mut ctx.rng;
+    for _ in 0..200 {
+        let order = 1 + rng.usize(MAX2);
+        let (min, max) = match (i + rng.usize(2)) % 4 {
+            0 => {
+                // normal but tiny width
+                let e = order as i64 - 1025 - rng.range(0, 20);
+                if e < -1022 {
+                    continue;
+                }
+                (0.0, rand_f(rng, e, e, false))
+            }
+            1 => {
+                // subnormal width between two subnormal bounds of opposite sign
+                let a = f64::from_bits(rng.next() & ((1u64 << 40) - 1));
+                let b = f64::from_bits(1 + (rng.next() & ((1u64 << 40) - 1)));
+                (-a, b)
+            }
+            2 => {
+                // exactly the threshold: 2^order / 2^(order-1024) = 2^1024
+                let e = order as i64 - 1024;
+                let bits = if e >= -1022 { ((e + 1023) as u64) << 52 } else { 1u64 << (52 - (-1022 - e)) };
+                (0.0, f64::from_bits(bits))
+            }
+            _ => {
+                // two neighbouring numbers near zero
+                let neg = rng.chance(1, 2);
+                let a = rand_f(rng, -1022, -1015, neg);
+                let b = f64::from_bits(a.to_bits() + 1);
+                if a < b {
+                    (a, b)
+                } else {
+                    (b, a)
+                }
+            }
+        };
+        if min <= max && factor_overflows(min, max, order) {
+            return (min, max, order);
+        }
+    }
+    (0.0, 1e-300, 32)
+}
+
+// ------------------------------------------------------------------ runner + oracle
 
 pub fn run_op(ctx: &mut Ctx, op: &str) {
-    ctx.record(op.to_string(), "bad-op".into(), false);
+    let toks: Vec<&str> = op.split_whitespace().collect();
+    let done = match toks.first().copied() {
+        Some("grid2") => run_grid(ctx, op, &toks, 2),
+        Some("grid3") => run_grid(ctx, op, &toks, 3),
+        Some("e2") => run_cells(ctx, op, &toks, 2),
+        Some("e3") => run_cells(ctx, op, &toks, 3),
+        Some("slow2") => run_slow2(ctx, op, &toks),
+        Some("pdep") => run_pdep(ctx, op, &toks),
+        Some("seg") => run_seg(ctx, op, &toks),
+        _ => None,
+    };
+    if done.is_none() {
+        ctx.record(op.to_string(), "bad-op".into(), false);
+    }
+}
+
+fn encode(dim: usize, c: &[u64], order: usize) -> u64 {
+    if dim == 2 {
+        hk::encode_2d(c[0], c[1], order)
+    } else {
+        hk::encode_3d(c[0], c[1], c[2], order)
+    }
+}
+
+/// every cell of the grid, first coordinate outermost
+fn whole_grid(dim: usize, order: usize) -> Caught<Vec<u64>> {
+    catch(|| {
+        let side = 1u64 << order;
+        let mut v = Vec::with_capacity((side as usize).pow(dim as u32));
+        if dim == 2 {
+            for x in 0..side {
+                for y in 0..side {
+                    v.push(hk::encode_2d(x, y, order));
+                }
+            }
+        } else {
+            for x in 0..side {
+                for y in 0..side {
+                    for z in 0..side {
+                        v.push(hk::encode_3d(x, y, z, order));
+                    }
+                }
+            }
+        }
+        v
+    })
+}
+
+/// position in the `whole_grid` enumeration -> coordinates
+fn coords(dim: usize, order: usize, pos: usize) -> [u64; 3] {
+    let m = low_mask(order) as usize;
+    if dim == 2 {
+        [(pos >> order) as u64, (pos & m) as u64, 0]
+    } else {
+        [(pos >> (2 * order)) as u64, (pos >> order & m) as u64, (pos & m) as u64]
+    }
+}
+
+fn run_grid(ctx: &mut Ctx, op: &str, toks: &[&str], dim: usize) -> Option<()> {
+    if toks.len() != 2 {
+        return None;
+    }
+    let order: usize = toks[1].parse().ok()?;
+    if order > if dim == 2 { GRID2_MAX } else { GRID3_MAX } {
+        return None;
+    }
+    let tag = if dim == 2 { "hilbert2" } else { "hilbert3" };
+    ctx.count(&format!("grid{}_order_{:02}", dim, order));
+    let idx = match whole_grid(dim, order) {
+        Caught::Ok(v) => v,
+        Caught::Panic(m) => {
+            let i = ctx.record(op.to_string(), format!("panic {}", m), true);
+            ctx.fail(i, &format!("{}-panic", tag), format!("{} [{}]", m, panic_sig(&m)));
+            return Some(());
+        }
+        Caught::Hang => unreachable!(),
+    };
+    let case = ctx.record(op.to_string(), join(&idx), order >= 1);
+    count_n(ctx, &format!("grid{}_cells", dim), idx.len() as u64);
+    let total = idx.len();
+
+    // bijectivity: every index below 2^(D·order), each hit exactly once
+    let mut inv = vec![u32::MAX; total];
+    let mut bij = true;
+    for (pos, &h) in idx.iter().enumerate() {
+        if h >= total as u64 {
+            ctx.fail(
+                case,
+                &format!("{}-not-bijective", tag),
+                format!("cell {:?} has index {} >= {}", &coords(dim, order, pos)[..dim], h, total),
+            );
+            bij = false;
+            break;
+        }
+        if inv[h as usize] != u32::MAX {
+            ctx.fail(
+                case,
+                &format!("{}-not-bijective", tag),
+                format!(
+                    "cells {:?} and {:?} share index {}",
+                    &coords(dim, order, inv[h as usize] as usize)[..dim],
+                    &coords(dim, order, pos)[..dim],
+                    h
+                ),
+            );
+            bij = false;
+            break;
+        }
+        inv[h as usize] = pos as u32;
+    }
+    // unit steps: consecutive indices are face neighbours
+    if bij {
+        for h in 0..total.saturating_sub(1) {
+            let a = coords(dim, order, inv[h] as usize);
+            let b = coords(dim, order, inv[h + 1] as usize);
+            let d: u64 = (0..3).map(|k| a[k].abs_diff(b[k])).sum();
+            if d != 1 {
+                ctx.fail(
+                    case,
+                    &format!("{}-not-continuous", tag),
+                    format!("indices {} and {} are cells {:?} and {:?}", h, h + 1, &a[..dim], &b[..dim]),
+                );
+                break;
+            }
+        }
+    }
+    // parent law against the grid one order lower
+    if order >= 2 {
+        match whole_grid(dim, order - 1) {
+            Caught::Ok(parent) => {
+                for (pos, &h) in idx.iter().enumerate() {
+                    let c = coords(dim, order, pos);
+                    let ppos = (if dim == 2 {
+                        ((c[0] >> 1) << (order - 1)) | (c[1] >> 1)
+                    } else {
+                        ((c[0] >> 1) << (2 * (order - 1))) | ((c[1] >> 1) << (order - 1)) | (c[2] >> 1)
+                    }) as usize;
+                    if h >> dim != parent[ppos] {
+                        ctx.fail(
+                            case,
+                            &format!("{}-parent-law", tag),
+                            format!(
+                                "cell {:?} order {}: index {} >> {} != parent index {}",
+                                &c[..dim],
+                                order,
+                                h,
+                                dim,
+                                parent[ppos]
+                            ),
+                        );
+                        break;
+                    }
+                }
+            }
+            Caught::Panic(m) => ctx.fail(case, &format!("{}-panic", tag), format!("parent grid: {}", m)),
+            Caught::Hang => unreachable!(),
+        }
+    }
+    Some(())
+}
+
+fn run_cells(ctx: &mut Ctx, op: &str, toks: &[&str], dim: usize) -> Option<()> {
+    if toks.len() < 3 {
+        return None;
+    }
+    let order: usize = toks[1].parse().ok()?;
+    let n: usize = toks[2].parse().ok()?;
+    if toks.len() != 3 + dim * n {
+        return None;
+    }
+    let mut flat = Vec::with_capacity(dim * n);
+    for t in &toks[3..] {
+        flat.push(t.parse::<u64>().ok()?);
+    }
+    let tag = if dim == 2 { "hilbert2" } else { "hilbert3" };
+    let accepted = order >= 1 && order <= if dim == 2 { MAX2 } else { MAX3 };
+    let valid = accepted && flat.iter().all(|&c| c <= low_mask(order));
+    let res = catch(|| flat.chunks(dim).map(|c| encode(dim, c, order)).collect::<Vec<u64>>());
+    let idx = match res {
+        Caught::Ok(v) => v,
+        Caught::Panic(m) => {
+            let i = ctx.record(op.to_string(), format!("panic {}", m), false);
+            ctx.count(&format!("e{}_panic", dim));
+            if valid {
+                ctx.fail(i, &format!("{}-panic", tag), format!("{} [{}]", m, panic_sig(&m)));
+            }
+            return Some(());
+        }
+        Caught::Hang => unreachable!(),
+    };
+    let case = ctx.record(op.to_string(), join(&idx), valid && n > 0);
+    if !valid {
+        if accepted {
+            // a coordinate outside the grid must be refused (debug assertions are on)
+            ctx.fail(case, &format!("{}-out-of-grid-accepted", tag), "no panic for a coordinate >= 2^order".into());
+        }
+        return Some(());
+    }
+    ctx.count(&format!("e{}_order_{:02}", dim, order));
+    // range
+    if dim * order < 64 {
+        if let Some(k) = idx.iter().position(|&h| h >> (dim * order) != 0) {
+            ctx.fail(
+                case,
+                &format!("{}-index-range", tag),
+                format!("cell {:?} order {}: index {} >= 2^{}", &flat[dim * k..dim * k + dim], order, idx[k], dim * order),
+            );
+        }
+    }
+    // parent law, with a fresh call one order lower
+    if order >= 2 {
+        let half: Vec<u64> = flat.iter().map(|c| c >> 1).collect();
+        match catch(|| half.chunks(dim).map(|c| encode(dim, c, order - 1)).collect::<Vec<u64>>()) {
+            Caught::Ok(parent) => {
+                if let Some(k) = (0..n).find(|&k| idx[k] >> dim != parent[k]) {
+                    ctx.fail(
+                        case,
+                        &format!("{}-parent-law", tag),
+                        format!(
+                            "cell {:?} order {}: index {:#x} >> {} != parent index {:#x}",
+                            &flat[dim * k..dim * k + dim],
+                            order,
+                            idx[k],
+                            dim,
+                            parent[k]
+                        ),
+                    );
+                }
+            }
+            Caught::Panic(m) => ctx.fail(case, &format!("{}-panic", tag), format!("parent cells: {}", m)),
+            Caught::Hang => unreachable!(),
+        }
+    }
+    // injectivity inside the batch
+    let mut by_index: Vec<(u64, &[u64])> = idx.iter().copied().zip(flat.chunks(dim)).collect();
+    by_index.sort();
+    if let Some(w) = by_index.windows(2).find(|w| w[0].0 == w[1].0 && w[0].1 != w[1].1) {
+        ctx.fail(
+            case,
+            &format!("{}-not-injective", tag),
+            format!("order {}: cells {:?} and {:?} share index {:#x}", order, w[0].1, w[1].1, w[0].0),
+        );
+    }
+    Some(())
+}
+
+fn run_slow2(ctx: &mut Ctx, op: &str, toks: &[&str]) -> Option<()> {
+    if toks.len() < 4 {
+        return None;
+    }
+    let order: usize = toks[1].parse().ok()?;
+    let config: usize = toks[2].parse().ok()?;
+    let n: usize = toks[3].parse().ok()?;
+    if toks.len() != 4 + n {
+        return None;
+    }
+    let mut zs = Vec::with_capacity(n);
+    for t in &toks[4..] {
+        zs.push(t.parse::<u64>().ok()?);
+    }
+    let valid = order >= 1 && order <= MAX2 && config < 4 && zs.iter().all(|&z| z <= low_mask(2 * order));
+    let res = catch(|| zs.iter().map(|&z| hk::encode_2d_slow(z, order, config)).collect::<Vec<_>>());
+    let out = match res {
+        Caught::Ok(v) => v,
+        Caught::Panic(m) => {
+            let i = ctx.record(op.to_string(), format!("panic {}", m), false);
+            ctx.count("slow2_panic");
+            if valid {
+                ctx.fail(i, "hilbert2-slow-panic", format!("{} [{}]", m, panic_sig(&m)));
+            }
+            return Some(());
+        }
+        Caught::Hang => unreachable!(),
+    };
+    let flat: Vec<u64> = out.iter().flat_map(|&(h, c)| [h, c as u64]).collect();
+    let case = ctx.record(op.to_string(), join(&flat), valid && n > 0);
+    if !valid {
+        return Some(());
+    }
+    ctx.count(&format!("slow2_config_{}", config));
+    if let Some(k) = out.iter().position(|&(_, c)| c >= 4) {
+        ctx.fail(case, "hilbert2-slow-config-range", format!("z {} -> final configuration {}", zs[k], out[k].1));
+    }
+    // the table-driven encoder equals the slow one started in configuration 0
+    let cmp = catch(|| {
+        zs.iter()
+            .map(|&z| {
+                let (x, y) = deinterleave2(z);
+                (hk::encode_2d_slow(z, order, 0).0, hk::encode_2d(x, y, order))
+            })
+            .collect::<Vec<_>>()
+    });
+    match cmp {
+        Caught::Ok(v) => {
+            if let Some(k) = v.iter().position(|&(s, f)| s != f) {
+                let (x, y) = deinterleave2(zs[k]);
+                ctx.fail(
+                    case,
+                    "hilbert2-fast-ne-slow",
+                    format!("order {} cell ({}, {}): slow {:#x} != fast {:#x}", order, x, y, v[k].0, v[k].1),
+                );
+            }
+        }
+        Caught::Panic(m) => ctx.fail(case, "hilbert2-panic", format!("fast/slow comparison: {}", m)),
+        Caught::Hang => unreachable!(),
+    }
+    // prefix law of the slow encoder from any start configuration
+    if order >= 2 {
+        match catch(|| zs.iter().map(|&z| hk::encode_2d_slow(z >> 2, order - 1, config).0).collect::<Vec<_>>()) {
+            Caught::Ok(p) => {
+                if let Some(k) = (0..n).find(|&k| out[k].0 >> 2 != p[k]) {
+                    ctx.fail(
+                        case,
+                        "hilbert2-slow-parent-law",
+                        format!("order {} config {} z {:#x}: {:#x} >> 2 != {:#x}", order, config, zs[k], out[k].0, p[k]),
+                    );
+                }
+            }
+            Caught::Panic(m) => ctx.fail(case, "hilbert2-slow-panic", format!("parent: {}", m)),
+            Caught::Hang => unreachable!(),
+        }
+    }
+    Some(())
+}
+
+fn run_pdep(ctx: &mut Ctx, op: &str, toks: &[&str]) -> Option<()> {
+    if toks.len() < 2 {
+        return None;
+    }
+    let n: usize = toks[1].parse().ok()?;
+    if toks.len() != 2 + 2 * n {
+        return None;
+    }
+    let mut args = Vec::with_capacity(2 * n);
+    for t in &toks[2..] {
+        args.push(u64::from_str_radix(t, 16).ok()?);
+    }
+    let res = catch(|| {
+        args.chunks(2)
+            .map(|p| (hk::pdep_u64(p[0], p[1]), hk::pdep_u64_fallback(p[0], p[1])))
+            .collect::<Vec<_>>()
+    });
+    let out = match res {
+        Caught::Ok(v) => v,
+        Caught::Panic(m) => {
+            let i = ctx.record(op.to_string(), format!("panic {}", m), false);
+            ctx.fail(i, "pdep-panic", format!("{} [{}]", m, panic_sig(&m)));
+            return Some(());
+        }
+        Caught::Hang => unreachable!(),
+    };
+    let text: Vec<String> = out.iter().flat_map(|&(a, b)| [format!("{:x}", a), format!("{:x}", b)]).collect();
+    let case = ctx.record(op.to_string(), text.join(" "), n > 0);
+    count_n(ctx, "pdep_pairs", n as u64);
+    for (k, &(a, b)) in out.iter().enumerate() {
+        let (src, mask) = (args[2 * k], args[2 * k + 1]);
+        if a != b {
+            ctx.fail(
+                case,
+                "pdep-hw-ne-fallback",
+                format!("pdep({:#x}, {:#x}): pdep_u64 {:#x} != fallback {:#x}", src, mask, a, b),
+            );
+            break;
+        }
+        let want = pdep_naive(src, mask);
+        if a != want || b != want {
+            ctx.fail(
+                case,
+                "pdep-wrong",
+                format!("pdep({:#x}, {:#x}) = {:#x} / {:#x}, expected {:#x}", src, mask, a, b, want),
+            );
+            break;
+        }
+    }
+    Some(())
+}
+
+fn run_seg(ctx: &mut Ctx, op: &str, toks: &[&str]) -> Option<()> {
+    if toks.len() < 5 {
+        return None;
+    }
+    let order: usize = toks[1].parse().ok()?;
+    let min = f64::from_bits(u64::from_str_radix(toks[2], 16).ok()?);
+    let max = f64::from_bits(u64::from_str_radix(toks[3], 16).ok()?);
+    let n: usize = toks[4].parse().ok()?;
+    if toks.len() != 5 + n {
+        return None;
+    }
+    let mut vs = Vec::with_capacity(n);
+    for t in &toks[5..] {
+        vs.push(f64::from_bits(u64::from_str_radix(t, 16).ok()?));
+    }
+    let valid = order >= 1
+        && order <= MAX2
+        && min.is_finite()
+        && max.is_finite()
+        && min <= max
+        && vs.iter().all(|&v| min <= v && v <= max);
+    let width = max - min;
+    let nontrivial = valid && width > 0.0 && n >= 2;
+    // input distribution (not part of the oracle): does the `nextafter` loop run at all?
+    if valid {
+        let f0 = pow2(order) / width;
+        ctx.count(if f0.is_infinite() && width > 0.0 {
+            "seg_factor_infinite"
+        } else if pow2(order) <= width * f0 {
+            "seg_loop_entered"
+        } else {
+            "seg_loop_not_entered"
+        });
+    }
+    let vs2 = vs.clone();
+    let res = catch_timeout(2, move || hk::segment_to_segment(min, max, order, &vs2));
+    let cells = match res {
+        Caught::Ok(v) => v,
+        Caught::Panic(m) => {
+            let i = ctx.record(op.to_string(), format!("panic {}", m), false);
+            ctx.count("seg_panic");
+            if valid {
+                ctx.fail(i, "seg-panic", format!("{} [{}]", m, panic_sig(&m)));
+            }
+            return Some(());
+        }
+        Caught::Hang => {
+            let i = ctx.record(op.to_string(), "hang".into(), nontrivial);
+            ctx.count("seg_hang");
+            if valid {
+                ctx.fail(
+                    i,
+                    "seg-hang",
+                    format!(
+                        "segment_to_segment({:e}, {:e}, {}) does not return (width {:e}, 2^order / width = {:e})",
+                        min,
+                        max,
+                        order,
+                        width,
+                        pow2(order) / width
+                    ),
+                );
+            }
+            return Some(());
+        }
+    };
+    let case = ctx.record(op.to_string(), join(&cells), nontrivial);
+    if !valid {
+        return Some(());
+    }
+    ctx.count("seg_ok");
+    let top = low_mask(order);
+    if let Some(k) = cells.iter().position(|&c| c > top) {
+        ctx.fail(
+            case,
+            "seg-range",
+            format!("[{:e};{:e}] order {}: {:e} -> cell {} > {}", min, max, order, vs[k], cells[k], top),
+        );
+    }
+    for k in 0..n.saturating_sub(1) {
+        let bad = (vs[k] <= vs[k + 1] && cells[k] > cells[k + 1]) || (vs[k] >= vs[k + 1] && cells[k] < cells[k + 1]);
+        if bad {
+            ctx.fail(
+                case,
+                "seg-not-monotone",
+                format!(
+                    "[{:e};{:e}] order {}: {:e} -> {} but {:e} -> {}",
+                    min,
+                    max,
+                    order,
+                    vs[k],
+                    cells[k],
+                    vs[k + 1],
+                    cells[k + 1]
+                ),
+            );
+            break;
+        }
+    }
+    if let Some(k) = (0..n).find(|&k| vs[k] == min && cells[k] != 0) {
+        ctx.fail(case, "seg-min-not-zero", format!("[{:e};{:e}] order {}: min -> cell {}", min, max, order, cells[k]));
+    }
+    // distribution: is the last cell reached (the comment in the code promises max -> 2^order - 1)?
+    if let Some(k) = (0..n).find(|&k| vs[k] == max) {
+        ctx.count(if cells[k] == top { "seg_max_hits_last_cell" } else { "seg_max_below_last_cell" });
+    }
+    Some(())
 }
